@@ -125,6 +125,19 @@ static void cut_after_failure(std::vector<Op>& ops, std::string& res) {
   ops.resize(i); res = kept;
 }
 
+// limits of a bounded wrapper over a scripted (memory-less) reader / writer: small most of the time, sometimes
+// around the 32-bit boundary or near the top of the 64-bit range, so that counters narrower than size_t show
+static std::uint64_t pick_limit(Rng& g) {
+  switch (g.below(12)) {
+    case 0: return (1ULL << 32) - 4 + g.below(24);
+    case 1: return (1ULL << 32) + 16;
+    case 2: return (1ULL << 33) + g.below(9);
+    case 3: return (1ULL << 63) + g.below(5);
+    case 4: return UINT64_MAX - g.below(9);
+    default: return g.below(24);
+  }
+}
+
 static std::uint64_t pick_size(Rng& g, std::uint64_t rem) {
   switch (g.below(10)) {
     case 0: return 0;
@@ -256,7 +269,7 @@ static void mode_rseq(Ctx& c) {
     }
     // BoundedReader over a scripted reader that fails where told
     {
-      std::uint64_t limit = g.below(24);
+      std::uint64_t limit = pick_limit(g);
       Script sc;
       std::string ans;
       int na = static_cast<int>(g.below(5));
@@ -325,7 +338,7 @@ std::string run_wops(Wt& w, const std::vector<WOp>& ops) {
 
 // `room` = bytes that may still be written without leaving the buffer; when `inbounds` the generator
 // never asks an unchecked writer for more (the BufferWriter contract: Prepare first)
-static std::vector<WOp> gen_wops(Rng& g, std::uint64_t room, bool inbounds, bool skips, bool pads, bool huge, int maxlen) {
+static std::vector<WOp> gen_wops(Rng& g, std::uint64_t room, bool inbounds, bool skips, bool pads, bool huge, int maxlen, bool bigskips = false) {
   std::vector<WOp> ops;
   int n = 1 + static_cast<int>(g.below(static_cast<std::uint64_t>(maxlen)));
   for (int i = 0; i < n; i++) {
@@ -345,7 +358,7 @@ static std::vector<WOp> gen_wops(Rng& g, std::uint64_t room, bool inbounds, bool
     } else if (k < 92 || !pads) {
       o.kind = 's'; o.pad = static_cast<int>(g.below(256));
       o.n = inbounds ? g.below(room + 1) : (huge ? pick_size(g, room) : g.below(room + 4));
-      if (o.n > 64 && o.n <= room) o.n = 64 < room ? 64 : room;
+      if (!bigskips && o.n > 64 && o.n <= room) o.n = 64 < room ? 64 : room;
       if (o.n <= room) room -= o.n;
     } else { o.kind = 'P'; o.pad = static_cast<int>(g.below(256)); }
     ops.push_back(o);
@@ -467,7 +480,7 @@ static void mode_wseq(Ctx& c) {
     }
     // BoundedWriter over a scripted writer
     {
-      std::uint64_t limit = g.below(24);
+      std::uint64_t limit = pick_limit(g);
       Script sc; std::string ans;
       int na = static_cast<int>(g.below(5));
       static const nop::ErrorStatus errs[] = {nop::ErrorStatus::IOError, nop::ErrorStatus::StreamError, nop::ErrorStatus::WriteLimitReached};
@@ -478,7 +491,7 @@ static void mode_wseq(Ctx& c) {
         ans += (e == nop::ErrorStatus::None ? "0" : status_name(e));
       }
       if (ans.empty()) ans = "-";
-      auto ops = gen_wops(g, limit, false, true, true, true, 7);
+      auto ops = gen_wops(g, limit, false, true, true, true, 7, true);
       std::string opstr; for (auto& o : ops) { opstr += ' '; opstr += wop_str(o); }
       ScriptedWriter inner{&sc};
       nop::BoundedWriter<ScriptedWriter> w{&inner, static_cast<std::size_t>(limit)};
